@@ -322,6 +322,27 @@ func init() {
 					}
 					o.Obs("wrr_fresh_windows", 1)
 				}
+				// one member ejected at every position of the rotation in turn: the next cycle of the others never
+				// contains it (nor "nobody"), whatever credit it held when it was ejected
+				if n := len(c.Weights); n >= 2 && (n <= 3 || (c.Weights[0]+c.Weights[3])%3 == 0) {
+					rounds := 2 * W
+					if rounds > 24 {
+						rounds = 24
+					}
+					for round := 0; round < rounds; round++ {
+						victim := fmt.Sprintf("b%d", round%n)
+						pickSeq(sys, 1)
+						sys.LB.MarkBackendUnhealthy(sys.liveBackend(victim), time.Second)
+						for k, x := range pickSeq(sys, W-weights[victim]) {
+							if x == victim || x == "" {
+								o.Viol("C05|wrr|picked-ineligible", fmt.Sprintf("weighted_round_robin weights=%v: %s ejected after %d rounds of the rotation sweep, pick %d of the others' next cycle returned %q", c.Weights, victim, round, k, x), nil)
+								return
+							}
+						}
+						time.Sleep(1100 * time.Millisecond)
+						o.Obs("wrr_eject_positions", 1)
+					}
+				}
 				o.Distinct(fmt.Sprintf("wrr|fresh|%v", c.Weights))
 				if len(c.Weights) == 3 && c.Weights[0] == 5 && c.Weights[1] == 1 && c.Weights[2] == 1 {
 					o.Sample(map[string]any{"part": "wrr", "weights": c.Weights, "fresh_sequence": seq[:W]})
